@@ -93,6 +93,15 @@ def place_demo(src, wt):
                 if os.path.basename(root) == base and any(f.endswith(".go") for f in files):
                     d = os.path.relpath(root, wt)
                     break
+        if d is None:
+            # e.g. "cp .../demo_test.go /tmp/seed-Cxx/cmd/mp4ff-crop/demo_test.go" or "go test ... ./cmd/mp4ff-crop"
+            for m2 in re.finditer(r"(?:/tmp/seed-C\d+/|\./)((?:cmd|examples|mp4|avc|hevc|sei|aac|av1|bits)(?:/[\w.-]+)*)", readme):
+                cand = m2.group(1)
+                while cand and not os.path.isdir(os.path.join(wt, cand)):
+                    cand = os.path.dirname(cand)
+                if cand and any(f.endswith(".go") for f in os.listdir(os.path.join(wt, cand))):
+                    d = cand
+                    break
         if d is None and cands:
             d = cands[0]
         dst = os.path.join(wt, d, "zz_seed_demo_test.go")
